@@ -33,7 +33,7 @@ pub fn profile(tier: Tier) -> Profile {
     p
 }
 
-const ZERO_LENS: [usize; 11] = [1, 2, 7, 8, 19, 20, 27, 28, 64, 1024, 33 * 1024];
+const ZERO_LENS: [usize; 13] = [1, 2, 7, 8, 19, 20, 27, 28, 64, 1024, 33 * 1024, 64 * 1024 + 1, 300_000];
 
 /// Reference expectation: older files complete + the complete records of the cut newest file.
 fn expected(base: &Image, newest: &str, tail: &[u8]) -> Result<Snapshot, String> {
@@ -56,7 +56,7 @@ impl Prop for C10 {
     }
     fn rule(&self) -> String {
         "proptest generates (config, short history with every record kind, clean restarts); after flush + acknowledgement + worker idle the chunk files are copied. Enumerated inside each image, for truncate_incomplete_record = true and = false: every cut position 0..len of the newest chunk file, \
-         and every zero tail that starts at a record boundary (incl. 0 and len) with length 1,2,7,8,19,20,27,28,64,1024,33KiB (a stride sub-sample when an image exceeds the tier's budget; the full count is reported). Oracle with truncation on: open is Ok and (state, entries) equal the reference replay of the older files plus exactly the complete records of the cut file \
+         and every zero tail that starts at a record boundary (incl. 0 and len) with length 1,2,7,8,19,20,27,28,64,1024,33KiB,64KiB+1,300000 (a stride sub-sample when an image exceeds the tier's budget; the full count is reported). Oracle with truncation on: open is Ok and (state, entries) equal the reference replay of the older files plus exactly the complete records of the cut file \
          (reference decoder), and for a sample of trials the recovered store follows the model through further writes, a restart and an acknowledged flush. With truncation off: an image whose newest file ends exactly on a record boundary opens Ok with the same expectation, every other image makes open fail and leaves every file byte-identical. \
          A trial is non-trivial iff the file differs from the original; distinct = (image, trial)."
             .to_string()
